@@ -391,6 +391,17 @@ def _filter_through(c, which):
     prev = c.val("prev")
     el_y = mk_obj(it, S, "Element", name="y", value=it.models.absent(it), category=None, capture="y", tags=frozenset())
     frk.fields["captures"]["y"] = mk_obj(it, I, "Capture", element=el_y, capture="y", names=["y"], values=[prev])
+    # a capture of an OUTER activation (it lives in the accumulator this one was forked from, and the outer function may bind the variable
+    # again later): what the handler is given is a frozen copy of it too
+    outer_v = c.val("outer")
+    el_p = mk_obj(it, S, "Element", name="p", value=it.models.absent(it), category=None, capture="p", tags=frozenset())
+    parent_cap = mk_obj(it, I, "Capture", element=el_p, capture="p", names=["p"], values=[outer_v])
+    # (a fork of the user's template has no parent; the fork made for a NESTED call has the fork of the outer call as its parent)
+    outer_frk = frk
+    outer_frk.fields["captures"]["p"] = parent_cap
+    frk = it.call(it.getattr(outer_frk, "fork"), [], {})
+    c.prove("fork-of-a-fork/parent-is-the-outer-activation's-accumulator", frk.fields.get("parent") is outer_frk and frk.fields["_" + which] is acc.fields["_" + which])
+    frk.fields["captures"]["y"] = outer_frk.fields["captures"].pop("y")
     if which == "trigger":
         st, res = run(it, it.getattr(frk, "trigger"), [el])
     else:
@@ -403,7 +414,10 @@ def _filter_through(c, which):
     c.prove("handler-runs-iff-check", z3.And(ok, n == 1) if n else z3.And(z3.Not(ok), n == 0))
     if seen:
         snap = seen[0]
-        c.prove("check-sees-snapshot-of-all-captures", isinstance(snap, dict) and set(snap.keys()) == ({"y"} if which == "trigger" else {"x", "y"}))
+        c.prove("check-sees-snapshot-of-all-captures", isinstance(snap, dict) and set(snap.keys()) == ({"y", "p"} if which == "trigger" else {"x", "y", "p"}))
+        if isinstance(snap, dict) and "p" in snap:
+            c.prove("snapshot-of-an-outer-activation's-capture-is-a-copy-too", snap["p"] is not parent_cap and snap["p"].fields["values"] is not parent_cap.fields["values"]
+                    and len(snap["p"].fields["values"]) == 1 and snap["p"].fields["values"][0] is outer_v, only=["C03", "C02", "C07", "C12"])
         if isinstance(snap, dict) and "y" in snap:
             c.prove("snapshot-not-aliased", snap["y"] is not frk.fields["captures"]["y"] and snap["y"].fields["values"] is not frk.fields["captures"]["y"].fields["values"])
             c.prove("snapshot-values", len(snap["y"].fields["values"]) == 1 and snap["y"].fields["values"][0] is prev)
